@@ -1581,22 +1581,29 @@ class UWG(object):
         zone_idx = REF_ZONETYPE.index(bld_z)
 
         # Build unique key based on bldtype and builtera strings
-        bld_dict = {bldg[0] + bldg[1]: (bldg[0], REF_BUILTERA.index(bldg[1]), bldg[2])
-                    for bldg in self.bld}
+        # (era text in any case; rows naming the same type and era are added together)
+        bld_dict = {}
+        for bldg in self.bld:
+            era = bldg[1].lower()
+            key = bldg[0] + era
+            frac = bldg[2] + (bld_dict[key][2] if key in bld_dict else 0.0)
+            bld_dict[key] = (bldg[0], REF_BUILTERA.index(era), frac)
+        matched = set()
 
         for i in range(len(self.refBEM)):  # ~16 building types (more w/ custom refs)
             for j in range(3):  # ~ 3 built eras
 
-                if not self.refBEM[i][j][0]:
+                if not self.refBEM[i][j][zone_idx]:
                     # when add custom types some matrix elements are None
                     continue
 
                 ref_key = \
-                    self.refBEM[i][j][0].bldtype + \
-                    self.refBEM[i][j][0].builtera
+                    self.refBEM[i][j][zone_idx].bldtype + \
+                    self.refBEM[i][j][zone_idx].builtera
                 if ref_key in bld_dict:
                     # Add to BEM list
                     bldtype, builtera_idx, frac = bld_dict[ref_key]
+                    matched.add(ref_key)
                     self.BEM.append(self.refBEM[i][builtera_idx][zone_idx])
                     self.BEM[k].frac = frac
                     self.BEM[k].fl_area = frac * total_urban_bld_area
@@ -1626,6 +1633,12 @@ class UWG(object):
                     self.Sch.append(
                         self.refSchedule[i][builtera_idx][zone_idx])
                     k += 1
+
+        unmatched = [key for key in bld_dict if key not in matched]
+        if unmatched:
+            raise Exception('The bld property references building types and eras with '
+                            'no reference data for zone {}: {}.'.format(
+                                self.zone, unmatched))
 
     def _compute_input(self):
         """Create input objects from user-defined parameters.
